@@ -13,7 +13,9 @@ def units(tier, seed):
     us, unc = k6family.make_units('C09', MODULES, tier)
     UNCOVERED[:] = unc
     from checks import foundation
-    return list(us) + foundation.units(tier, seed)
+    from checks import tables as _tables
+    _table_units = _tables.units(_tables.OPP)
+    return list(us) + foundation.units(tier, seed) + _table_units
 
 
 FINDING_REPLAYS = regions.finding_replays('C09')
